@@ -619,11 +619,54 @@ def stream_declarations(ctx, acc):
                                              "SpecXmlDoc.doc_parse %s" % ("accepts" if ok else "refuses", "accepts" if spec else "refuses")})
 
 
+def decorated_document(seen, inline_on):
+    """-> wire value of coq xset (model/DfxpSkelBody.v): abstract_document of the set the RegionCreator saw, decorated with
+    what the reference model does not look at: language codes, begin / end, the positioning attributes
+    (_convert_layout_to_attributes of the layout get_positioning_info picks: first truthy of node, caption, language,
+    else the set's) that write_inline_positioning adds"""
+    from pycaption.dfxp.base import _convert_layout_to_attributes
+
+    def conv(l):
+        return [[str(k), str(v)] for k, v in _convert_layout_to_attributes(l).items()] if inline_on else []
+
+    def picked(*ls):
+        for l in ls:
+            if l:
+                return l
+        return ls[-1]
+    d = abstract_document(seen)
+    set_l = seen.layout_info
+    langs = []
+    for (ll, caps), lang in zip(d[2], seen.get_languages()):
+        lang_l = seen.get_layout_info(lang)
+        xcaps = []
+        for (cl, st, ns), c in zip(caps, seen.get_captions(lang)):
+            xns = [[rn[0], rn[1], rn[2], conv(n.layout_info) if (rn[1] and n.layout_info) else []] for rn, n in zip(ns, c.nodes)]
+            xcaps.append([cl, st, xns, c.format_start(), c.format_end(), conv(picked(c.layout_info, lang_l, set_l))])
+        langs.append([ll, xcaps, lang, conv(picked(lang_l, set_l))])
+    return [d[0], d[1], langs]
+
+
+SPAN_RE = re.compile(r'<span((?: [^\s=]+=(?:"[^"]*"|\'[^\']*\'))+)>')
+SPAN_ATTR_RE = re.compile(r' ([^\s=]+)=("[^"]*"|\'[^\']*\')')
+
+
+def spans_of_payload(text):
+    """the attribute dictionaries of the <span> start tags _recreate_span wrote into a <p> string (quoteattr undone)"""
+    from xml.sax.saxutils import unescape
+    ent = {"&quot;": '"', "&#10;": "\n", "&#13;": "\r", "&#9;": "\t"}
+    return [[[k, unescape(v[1:-1], ent)] for k, v in SPAN_ATTR_RE.findall(m.group(1))] for m in SPAN_RE.finditer(text)]
+
+
+def region_number(rid_):
+    return -1 if rid_ == "bottom" else int(rid_[1:])
+
+
 def stream_skeleton(ctx, acc, docs):
-    """docs: list of (inp, rp, out, captured skeleton)"""
+    """docs: list of (inp, rp, out, captured skeleton, style table, decorated set of the main writer or None)"""
     rng = ctx.rng
     reqs, plan = [], []
-    for inp, rp, out, sk, table in docs:
+    for inp, rp, out, sk, table, xdoc in docs:
         if len(out) > 60000:
             acc.count("K_document_longer_than_60000_characters(not sent)")
             continue
@@ -643,14 +686,58 @@ def stream_skeleton(ctx, acc, docs):
             plan.append(("styling", inp, rp, sk[1][1], None))
         else:
             acc.count("K_styling_of_single_positioning_writer(text-align removed first: not compared)")
+        if xdoc is not None and xdoc[0] == "ok" and not ctx.thorough and rng.random() >= 0.6:
+            acc.count("K_tree_tie_not_sampled(quick tier compares 60 % of the main-writer documents; thorough all)")
+        elif xdoc is not None and xdoc[0] == "ok":
+            # round 4: <layout> and <body> of the tree (insertion order) against DfxpSkelBody.tree_of of the set the writer
+            # traversed; the layout attributes of a <region> are taken from the tree
+            rg = sk[1][2]
+            ids_ = [dict(map(tuple, a)).get("xml:id") for a in rg]
+            if all(isinstance(i, str) and re.fullmatch(r"bottom|r[0-9]+", i) for i in ids_):
+                reqs.append((717, [xdoc[1], [[region_number(i), [kv for kv in a if kv[0] != "xml:id"]] for i, a in zip(ids_, rg)]]))
+                plan.append(("tree", inp, rp, sk[1], None))
+            else:
+                acc.res["disagreements"].append(dict({"stream": "K-tree", "input": inp, "what": "a <region> of the tree has no "
+                                                 "xml:id of the form bottom / r<k>: %r" % (ids_,)}, **rp))
+        elif xdoc is not None:
+            acc.count("K_tree_not_compared:" + xdoc[0])
         reqs.append((715, out))
         plan.append(("parse", inp, rp, out, None))
-        if rng.random() < 0.15:
+        if rng.random() < 0.10:
             for label, text in damaged_variants(out):
                 reqs.append((715, text))
                 plan.append(("damaged", inp, rp, text, label))
     for (kind, inp, rp, text, label), r in zip(plan, oracle_batch(reqs)):
         acc.res["evaluations"] += 1
+        if kind == "tree":
+            want_regions = text[2]
+            want_body = [[dv[0], [[p_[0], spans_of_payload(p_[1])] for p_ in dv[1]]] for dv in text[3]]
+            got_body = [[dv[0], [[p_[0], [sp for sp in p_[1] if sp]] for p_ in dv[1]]] for dv in r[1]] if isinstance(r, list) and len(r) == 7 else None
+            refs_of = lambda k, b: [v for dv in b for el in [dv[0]] + [e for p_ in dv[1] for e in [p_[0]] + p_[1]] for kk, v in el if kk == k]   # noqa: E731
+            if got_body is None or r[0] != want_regions or got_body != want_body:
+                acc.res["disagreements"].append(dict({"stream": "K-tree", "input": inp, "what": "the <region> / <div> / <p> / <span> "
+                                                 "attribute dictionaries of the tree (insertion order) differ from DfxpSkelBody.tree_of "
+                                                 "of the caption set the writer traversed", "model": r if got_body is None else [r[0], got_body],
+                                                 "impl": [want_regions, want_body]}, **rp))
+            elif r[6] and r[5] != 0:
+                acc.res["disagreements"].append(dict({"stream": "K-tree", "input": inp, "what": "ok_refs of the ids / references read "
+                                                 "from the model tree = %r inside dom_doc (theorem C07_document_references_resolved)" % (r[5],)}, **rp))
+            else:
+                acc.count("K_layout_and_body_of_the_tree_equal_the_model(DfxpSkelBody.tree_of)")
+                acc.count("K_tree_region_elements", len(want_regions))
+                acc.count("K_tree_div_elements", len(want_body))
+                acc.count("K_tree_p_elements", sum(len(dv[1]) for dv in want_body))
+                acc.count("K_tree_span_dictionaries", sum(len(p_[1]) for dv in want_body for p_ in dv[1]))
+                acc.count("K_tree_region_references", len(refs_of("region", want_body)))
+                acc.count("K_tree_style_references_in_the_body", len(refs_of("style", want_body)))
+                acc.count("K_tree_elements_with_inline_positioning_attributes",
+                          sum(1 for dv in want_body for el in [dv[0]] + [e for p_ in dv[1] for e in [p_[0]] + p_[1]]
+                              if any(k.startswith("tts:origin") or k.startswith("tts:extent") or k.startswith("tts:padding") for k, _ in el)))
+                acc.count("K_tree_documents_outside_dom_doc(style id = region id; dictionaries still equal)", 0 if r[6] else 1)
+                if refs_of("region", r[1]) != r[4] or [v for a in want_regions for k, v in a if k == "xml:id"] != r[2][len(r[2]) - len(want_regions):]:
+                    acc.res["disagreements"].append(dict({"stream": "K-tree", "input": inp, "what": "tree_region_refs / tree_ids of the "
+                                                     "model differ from the references / ids read from the captured tree"}, **rp))
+            continue
         if kind == "styling":
             if r == text:
                 acc.count("K_styling_sections_of_the_tree_equal_the_model(DfxpSkelHead.style_elems)")
@@ -1274,10 +1361,12 @@ def stream_documents(ctx, acc, kdocs=None):
                 kw["default_positioning"] = Layout(origin=Point(Size(5, UnitEnum.PERCENT), Size(80, UnitEnum.PERCENT)))
             langs = cs.get_languages()
             force = rng.choice([None, None, "", rng.choice(langs), "zz"])
-            w = WRITERS[wname](**kw)
+            w = recording_writer(WRITERS[wname], **kw) if (wname == "main" and kdocs is not None) else WRITERS[wname](**kw)
             TreeSpy.last = None
+            Recorder.seen = None
             out = impl.call(lambda: w.write(cs, force=force) if force is not None else w.write(cs))
             sk = TreeSpy.last
+            seen = Recorder.seen
             acc.res["evaluations"] += 1
             inp = {"source": src, "writer": wname, "options": {k: repr(v) for k, v in kw.items()}, "force": force,
                    "set": gens.describe_capset(cs), "styles": repr(cs.get_styles())[:500]}
@@ -1300,7 +1389,16 @@ def stream_documents(ctx, acc, kdocs=None):
                 acc.count("D_scc_generated_captions_with_several_layouts",
                           sum(1 for l in langs for c in cs.get_captions(l) if len({id(n.layout_info) for n in c.nodes}) > 1))
             if kdocs is not None:
-                kdocs.append((inp, rp, out.v, sk, [[sid, content_pairs(st)] for sid, st in cs.get_styles()] if wname != "single" else None))
+                xdoc = None
+                if wname == "main":
+                    if force and force in langs and len(langs) > 1:
+                        # the RegionCreator numbers the regions over ALL languages, the traversal model over the written ones
+                        xdoc = ("forced_language_of_a_multi_language_set(region numbering sees the unwritten languages)",)
+                    elif seen is None:
+                        xdoc = ("set_seen_by_the_RegionCreator_not_recorded",)
+                    else:
+                        xdoc = ("ok", decorated_document(seen, kw.get("write_inline_positioning", False)))
+                kdocs.append((inp, rp, out.v, sk, [[sid, content_pairs(st)] for sid, st in cs.get_styles()] if wname != "single" else None, xdoc))
             if judge_document(acc, cs, wname, kw, force, out.v, inp, rp):
                 acc.res["nontrivial"].add(("D", src, wname, out.v))
                 acc.count("D_ok_" + src)
